@@ -102,9 +102,9 @@ theorem sizeLoop_good (cols : List Col) (n : Nat) (baseGen : List PGen) (bo extT
         · cases h; exact hg1
         · exact ih _ _ h hg1
 
-theorem whileLoop_good (cols : List Col) (n : Nat) (intent : List Descr) (baseGen : List PGen)
+theorem whileLoop_good (cols : List Col) (n : Nat) (intent : List Descr) (psIter : List Nat) (baseGen : List PGen)
     (bo extTrue : List Nat) (fuel maxProj : Nat) (mg R : List DescrD)
-    (h : whileLoop cols n intent baseGen bo extTrue fuel maxProj mg = .ok R)
+    (h : whileLoop cols n intent psIter baseGen bo extTrue fuel maxProj mg = .ok R)
     (hg : Good cols n bo extTrue mg) : Good cols n bo extTrue R := by
   induction fuel generalizing maxProj mg with
   | zero =>
@@ -123,6 +123,38 @@ theorem whileLoop_good (cols : List Col) (n : Nat) (intent : List Descr) (baseGe
         refine ih _ _ h ?_
         unfold whileBody at hst
         exact sizeLoop_good _ _ _ _ _ _ _ _ _ hst hg
+
+/-! ### the acceptance test reads the base objects as a set -/
+
+/-- object `g` falls into every interval of the description -/
+def covers (cols : List Col) (d : DescrD) (g : Nat) : Bool := d.all fun p => sat (cols.getD p.1 []) p.2 g
+
+theorem extSpec_eq_filter (cols : List Col) (d : DescrD) (bo : List Nat) :
+    extSpec cols d bo = bo.filter (covers cols d) := rfl
+
+theorem filter_eq_filter_iff {p q : Nat → Bool} (l : List Nat) :
+    l.filter p = l.filter q ↔ ∀ g ∈ l, p g = q g := by
+  constructor
+  · intro h g hg
+    rw [Bool.eq_iff_iff]
+    constructor
+    · intro hp
+      have : g ∈ l.filter p := List.mem_filter.mpr ⟨hg, hp⟩
+      rw [h] at this
+      exact (List.mem_filter.mp this).2
+    · intro hq
+      have : g ∈ l.filter q := List.mem_filter.mpr ⟨hg, hq⟩
+      rw [← h] at this
+      exact (List.mem_filter.mp this).2
+  · intro h
+    exact List.filter_congr h
+
+/-- the Boolean acceptance test `sameExtension` says: on every base object the generator and the intent agree -/
+theorem sameExtension_iff (cols : List Col) (intent : List Descr) (bo : List Nat) (d : DescrD) :
+    sameExtension cols intent bo d = true ↔ ∀ g ∈ bo, covers cols d g = covers cols (intentD intent) g := by
+  unfold sameExtension
+  rw [beq_iff_eq, extSpec_eq_filter, extSpec_eq_filter]
+  exact filter_eq_filter_iff bo
 
 /-! ### helpers for closed examples (no `DecidableEq` on `Except`) -/
 
